@@ -848,9 +848,9 @@ def install(E):
             # and return slot `pos` if present else skip (recursive ite over remaining slots)
             p, v = its[pos]
             mem[r.cell] = E.write_path(mem[r.cell], r.path, It('list', extra=(its, pos + 1)), mem, guard, 'next')
-            if p is True:
-                return opt_some(v)
-            raise Unsupported('stepping an iterator with symbolic presence (filter in a for loop)')
+            # elements of a drained / materialised prefix sequence: slot `pos` is present iff p; when it
+            # is absent all later slots are absent too (prefix sequences), so the loop ends here
+            return mk_opt(E, p, v)
         return NotImplemented
     reg(r' as Iterator>::next$', h_iter_next)
 
@@ -881,6 +881,48 @@ def install(E):
         mem[r.cell] = E.write_path(mem[r.cell], r.path, Seq(cur.elems, None, cur.ety, pres=keep), mem, guard, 'retain')
         return UNIT
     reg(r'^(?:std::vec::|alloc::vec::)?Vec::<.*>::retain::<', h_retain)
+
+    def h_fill(E, m, func, argv, guard, mem, dty, caller):
+        r, t = arr_ref(E, argv[0], mem, guard)
+        mem[r.cell] = E.write_path(mem[r.cell], r.path, Tup([argv[1]] * len(t.fs)), mem, guard, 'fill')
+        return UNIT
+    reg(r'^core::slice::<impl \[.*\]>::fill$', h_fill)
+
+    def h_drain_full(E, m, func, argv, guard, mem, dty, caller):
+        """Vec::drain(..): yields every element by value and leaves the vector empty"""
+        r, s = seq_ref(E, argv[0], mem, guard)
+        if not isinstance(s, Seq):
+            return NotImplemented
+        its = []
+        for i in range(len(s.elems)):
+            p = simp(s.pres[i])
+            if p is False:
+                continue
+            its.append((p, s.elems[i]))
+        mem[r.cell] = E.write_path(mem[r.cell], r.path, Seq(s.elems, 0, s.ety), mem, guard, 'drain')
+        return It('list', extra=(its, 0))
+    reg(r'^(?:std::vec::|alloc::vec::)?Vec::<.*>::drain::<(?:std::ops::)?RangeFull>$', h_drain_full)
+
+    def h_push(E, m, func, argv, guard, mem, dty, caller):
+        r, s = seq_ref(E, argv[0], mem, guard)
+        if not (isinstance(s, Seq) and s.prefix):
+            return NotImplemented
+        n = s.n
+        elems = list(s.elems) + [argv[1]]
+        if isinstance(n, int):
+            elems = list(s.elems[:n]) + [argv[1]] + list(s.elems[n + 1:])
+            while len(elems) < len(s.elems):
+                elems.append(s.elems[len(elems)])
+            new = Seq(elems, n + 1, s.ety)
+        else:
+            out = []
+            for i in range(len(s.elems)):
+                out.append(E.merge(simp(zint(n) == i), argv[1], s.elems[i]))
+            out.append(argv[1])      # position len(elems) is only reached when n == len(elems)
+            new = Seq(out, zint(n) + 1, s.ety)
+        mem[r.cell] = E.write_path(mem[r.cell], r.path, new, mem, guard, 'push')
+        return UNIT
+    reg(r'^(?:std::vec::|alloc::vec::)?Vec::<(?!u8>).*>::push$', h_push)
 
     def h_index(E, m, func, argv, guard, mem, dty, caller):
         r, s = seq_ref(E, argv[0], mem, guard)
